@@ -284,7 +284,11 @@ class SchedModel:
         for n in iter_own_nodes(f.node):
             if isinstance(n, ast.Call):
                 q = self.T.resolve_callee(f, n)
-                if q and q.startswith("ext:") and q.endswith("ThreadPoolExecutor"):
+                sub_ = self.P.classes.get(q) if q else None
+                is_sub = sub_ is not None and any((b or "").split(".")[-1] == "ThreadPoolExecutor" for b in sub_.bases) \
+                    and "__init__" not in sub_.methods and "submit" not in sub_.methods
+                # (a subclass that adds methods but neither its own constructor nor its own submit is the same pool)
+                if (q and q.startswith("ext:") and q.endswith("ThreadPoolExecutor")) or is_sub:
                     if self.pool_ctor is not None:
                         raise Undecided("more than one ThreadPoolExecutor constructed in the scheduler")
                     self.pool_ctor = n
@@ -367,7 +371,8 @@ class SchedModel:
                     # a package wrapper (coroutine) around the submission; SCH-TASKDONE checks that it really uses the pool it is given
                     info["kind"] = "async"
                     info["callee"] = q
-                    info["pool_passed"] = any(dotted(a) == self.pool_var for a in list(s.args) + [k.value for k in s.keywords])
+                    info["pool_passed"] = any(dotted(a) == self.pool_var for a in list(s.args) + [k.value for k in s.keywords]) or (
+                        isinstance(s.func, ast.Attribute) and dotted(s.func.value) == self.pool_var)  # a method of the pool itself
                 elif q in self.P.funcs and self._foreign_wrapper(q) is not None:
                     # a package wrapper that hands the node function to an external callable without using the pool it is given
                     info["kind"] = "foreign"
@@ -1042,13 +1047,15 @@ def analyse_wait_helper(ctx: Ctx, h: FuncInfo) -> Optional[WaitHelper]:
     wait_call = None
     kind = None
     awaited = False
+    unpacked = {id(a_.value.value if isinstance(a_.value, ast.Await) else a_.value) for a_ in iter_own_nodes(h.node)
+                if isinstance(a_, ast.Assign) and isinstance(a_.targets[0], (ast.Tuple, ast.List)) and len(a_.targets[0].elts) == 2}
     for n in iter_own_nodes(h.node):
         if isinstance(n, ast.Call):
             q = T.resolve_callee(h, n) or ""
-            if q == "ext:concurrent.futures.wait":
-                wait_call, kind = n, "conc"
-            elif q == "ext:asyncio.wait":
-                wait_call, kind = n, "async"
+            if q in ("ext:concurrent.futures.wait", "ext:asyncio.wait"):
+                # the wait whose (done, pending) result is used is THE wait of the helper; any other one is reported as a second wait
+                if wait_call is None or (id(n) in unpacked and id(wait_call) not in unpacked):
+                    wait_call, kind = n, ("conc" if q == "ext:concurrent.futures.wait" else "async")
     if wait_call is None:
         return None
     params = [a.arg for a in h.node.args.posonlyargs + h.node.args.args + h.node.args.kwonlyargs]  # type: ignore[attr-defined]
@@ -1083,8 +1090,12 @@ def analyse_wait_helper(ctx: Ctx, h: FuncInfo) -> Optional[WaitHelper]:
         raise Undecided(f"{h.short}: result of the wait primitive is not unpacked into (done, pending)")
     d0, d1 = bind.targets[0].elts
     done_new = dotted(d0)
-    if dotted(d1) != p_running:
-        raise Undecided(f"{h.short}: the pending set is not re-bound to the waited set parameter")
+    p_pending = dotted(d1)
+    if p_pending is None:
+        raise Undecided(f"{h.short}: the pending set is not bound to a name")
+    if p_pending != p_running and any(isinstance(x, (ast.Assign, ast.AugAssign)) and x is not bind and any(
+            isinstance(y, ast.Name) and y.id == p_pending and isinstance(y.ctx, ast.Store) for y in ast.walk(x)) for x in iter_own_nodes(h.node)):
+        raise Undecided(f"{h.short}: the pending set is bound to '{p_pending}' and re-bound afterwards")
     # early return when the set is empty, before the wait
     early = False
     for s in h.node.body:  # type: ignore[attr-defined]
@@ -1180,7 +1191,7 @@ def analyse_wait_helper(ctx: Ctx, h: FuncInfo) -> Optional[WaitHelper]:
     if final is not None and isinstance(final.value, ast.Tuple):
         for i, e in enumerate(final.value.elts):
             d = dotted(e)
-            if d == p_running:
+            if d == p_running or d == p_pending:
                 ret_index["running"] = i
             elif p_runnable and d == p_runnable:
                 ret_index["runnable"] = i
